@@ -245,6 +245,12 @@ def text_object(draw, N, allow_bad):
     if draw(st.integers(0, 9)) > 0:
         ops.append(draw(N["tf"]))
     body = list(draw(N["textbody"]))
+    if draw(st.integers(0, 2)) == 0:
+        # the same operator with the same operands once more later in the text object (an identical Tm still resets
+        # the line matrix, an identical Tf/Tc/... is harmless), and the identity Tm that equals the matrix BT sets
+        i = draw(st.integers(0, len(body) - 1))
+        again = body[i] if draw(st.integers(0, 3)) else ("Tm", TM.I6)
+        body.insert(draw(st.integers(i + 1, len(body))), again)
     nbad = draw(st.sampled_from([0, 0, 0, 1, 1, 2])) if allow_bad else 0
     for _bad in range(nbad):
         pos = draw(st.integers(0, len(body)))
